@@ -2,4 +2,10 @@ package harness
 
 import "testing"
 
-func extraEngineFor(prop string, t *testing.T) Engine { return nil }
+func extraEngineFor(prop string, t *testing.T) Engine {
+	switch prop {
+	case "C07":
+		return linEngine{t}
+	}
+	return nil
+}
